@@ -549,6 +549,12 @@ func judgeC14(c *SrvCase, obs *SrvObs, o *Outcome) {
 	// completes the handshake, so the callbacks are those of a session that was established and then ended
 	for i := 1; i <= len(c.Script); i++ {
 		if RunServerModel(&SrvCase{Cfg: c.Cfg, Script: c.Script[:i]}, observedNegotiation(obs)).Status == "established" {
+			// ... provided the server did write its established envelope (visible in the capture of a cleartext connection): a
+			// handshake whose last envelope could not be sent has not established anything
+			if c.Cfg.Transport != "inproc" && !obs.PeerTLS && !strings.Contains(obs.Cleartext, `"state":"established"`) {
+				o.Class("established-envelope-never-written")
+				break
+			}
 			o.Class("established-before-the-peer-vanished")
 			return
 		}
